@@ -1,41 +1,41 @@
 import Proofs.C14.Inst3
-/-! C14 proofs: on EVERY `bad` layout the current code leaves key 0 uncovered (the guard of
-`inst_exact_of_not_bad` is exact). -/
+/-! C14 proofs: on EVERY `bad` layout the walk before fix 9068690 left key 0 uncovered (the guard of
+`instOld_exact_of_not_bad` is exact). -/
 namespace PfC14
 open C14 Ring
 
-theorem walkLoop_append : ∀ (P Q : List (Nat × Bool)) (re : Nat),
-    walkLoop re (P ++ Q) = ((walkLoop (walkLoop re P).1 Q).1, (walkLoop re P).2 ++ (walkLoop (walkLoop re P).1 Q).2)
-  | [], Q, re => by simp [walkLoop]
+theorem walkLoopOld_append : ∀ (P Q : List (Nat × Bool)) (re : Nat),
+    walkLoopOld re (P ++ Q) = ((walkLoopOld (walkLoopOld re P).1 Q).1, (walkLoopOld re P).2 ++ (walkLoopOld (walkLoopOld re P).1 Q).2)
+  | [], Q, re => by simp [walkLoopOld]
   | (t, m) :: P, Q, re => by
     by_cases h0 : re = 0
-    · cases m <;> simp [walkLoop, h0, walkLoop_append P Q]
-    · cases m <;> simp [walkLoop, h0, walkLoop_append P Q]
+    · cases m <;> simp [walkLoopOld, h0, walkLoopOld_append P Q]
+    · cases m <;> simp [walkLoopOld, h0, walkLoopOld_append P Q]
 
 /-- everything the sentinel walk appends is `≥ 1` when the tokens are `≥ 2` -/
-theorem walkLoop_vals : ∀ (P : List (Nat × Bool)) (re : Nat), (∀ p ∈ P, 2 ≤ p.1) →
-    ∀ x ∈ (walkLoop re P).2, 1 ≤ x
-  | [], re, _, x, hx => by simp [walkLoop] at hx
+theorem walkLoopOld_vals : ∀ (P : List (Nat × Bool)) (re : Nat), (∀ p ∈ P, 2 ≤ p.1) →
+    ∀ x ∈ (walkLoopOld re P).2, 1 ≤ x
+  | [], re, _, x, hx => by simp [walkLoopOld] at hx
   | (t, m) :: P, re, h, x, hx => by
     have ht : 2 ≤ t := h (t, m) (by simp)
-    have ih := fun re => walkLoop_vals P re (fun p hp => h p (by simp [hp]))
+    have ih := fun re => walkLoopOld_vals P re (fun p hp => h p (by simp [hp]))
     by_cases h0 : re = 0
     · cases m
-      · simp only [walkLoop, h0, if_true] at hx; exact ih _ x (by simpa using hx)
-      · simp only [walkLoop, h0, if_true] at hx; exact ih _ x hx
+      · simp only [walkLoopOld, h0, if_true] at hx; exact ih _ x (by simpa using hx)
+      · simp only [walkLoopOld, h0, if_true] at hx; exact ih _ x hx
     · cases m
-      · simp only [walkLoop, h0, if_false] at hx
+      · simp only [walkLoopOld, h0, if_false] at hx
         simp only [Bool.false_eq_true, if_false, List.mem_cons] at hx
         rcases hx with rfl | rfl | hx
         · omega
         · omega
         · exact ih _ x hx
-      · simp only [walkLoop, h0, if_false, if_true] at hx; exact ih _ x hx
+      · simp only [walkLoopOld, h0, if_false, if_true] at hx; exact ih _ x hx
 
 /-- after a token of another instance the sentinel walk is "looking for an end" (`rangeEnd = 0`) -/
-theorem walkLoop_after_other (P : List (Nat × Bool)) (t re : Nat) : (walkLoop re (P ++ [(t, false)])).1 = 0 := by
-  rw [walkLoop_append]
-  by_cases h0 : (walkLoop re P).1 = 0 <;> simp [walkLoop, h0]
+theorem walkLoopOld_after_other (P : List (Nat × Bool)) (t re : Nat) : (walkLoopOld re (P ++ [(t, false)])).1 = 0 := by
+  rw [walkLoopOld_append]
+  by_cases h0 : (walkLoopOld re P).1 = 0 <;> simp [walkLoopOld, h0]
 
 theorem mem_insertNat {x y : Nat} : ∀ {l : List Nat}, y ∈ insertNat x l → y = x ∨ y ∈ l
   | [], h => by simp [insertNat] at h; exact Or.inl h
@@ -73,7 +73,7 @@ theorem includesKey_zero_of_pos (tr : List Nat) (h : ∀ x ∈ tr, 1 ≤ x) : in
 /-- **the guard is exact**: on every `bad` zone layout, the lookup assigns key 0 to the instance
 (token 1 is the first token after 0 and the instance owns it) but its reported ranges miss key 0. -/
 theorem bad_gap (zt : List (Nat × Bool)) (hs : SAsc (zt.map (·.1))) (hbad : bad zt = true) :
-    includesKey (instRangesOf zt) 0 = false ∧ IsSucc (zt.map (·.1)) 0 1 ∧ (1, true) ∈ zt := by
+    includesKey (instRangesOfOld zt) 0 = false ∧ IsSucc (zt.map (·.1)) 0 1 ∧ (1, true) ∈ zt := by
   -- shape of a bad layout
   obtain ⟨fm, rest, rfl, hrest⟩ : ∃ fm rest, zt = (0, fm) :: (1, true) :: rest ∧
       ((rest = [] ∧ fm = false) ∨ ∃ t2 rest', rest = (t2, false) :: rest') := by
@@ -93,18 +93,18 @@ theorem bad_gap (zt : List (Nat × Bool)) (hs : SAsc (zt.map (·.1))) (hbad : ba
     intro x hx
     have hx' := mem_sortNat hx
     -- unfold the walk: rest.reverse ++ [(1, true)]
-    simp only [instRangesOf, List.reverse_cons, List.mem_append] at hx'
-    rw [walkLoop_append] at hx'
-    have hstate : (walkLoop (if fm then maxU32 else 0) rest.reverse).1 = 0 := by
+    simp only [instRangesOfOld, List.reverse_cons, List.mem_append] at hx'
+    rw [walkLoopOld_append] at hx'
+    have hstate : (walkLoopOld (if fm then maxU32 else 0) rest.reverse).1 = 0 := by
       rcases hrest with ⟨rfl, rfl⟩ | ⟨t2, rest', rfl⟩
-      · simp [walkLoop]
-      · simp only [List.reverse_cons]; exact walkLoop_after_other _ _ _
+      · simp [walkLoopOld]
+      · simp only [List.reverse_cons]; exact walkLoopOld_after_other _ _ _
     simp only [hstate] at hx'
-    have hlast : walkLoop 0 [(1, true)] = (0, []) := by simp [walkLoop, pred32]
+    have hlast : walkLoopOld 0 [(1, true)] = (0, []) := by simp [walkLoopOld, pred32]
     rw [hlast] at hx'
-    simp only [List.append_nil, walkFinish] at hx'
+    simp only [List.append_nil, walkFinishOld] at hx'
     rcases hx' with hx' | hx'
-    · exact walkLoop_vals rest.reverse _ (fun p hp => hge2 p (List.mem_reverse.mp hp)) x hx'
+    · exact walkLoopOld_vals rest.reverse _ (fun p hp => hge2 p (List.mem_reverse.mp hp)) x hx'
     · simp at hx'
   · refine ⟨by simp, Or.inl ⟨by omega, ?_⟩⟩
     intro u hu hu0
